@@ -577,7 +577,7 @@ def proof_layer(ctx):
     concurrently compile their own files); the property file is always re-checked with coqc."""
     if os.environ.get("VERIF_NO_MAKE"):
         info = dict(obligations=0, discharged=0, theorems=[], ok=True, why="")
-        bad = vlib.coq_lint()
+        bad = vlib.coq_lint(ctx.pid)
         if bad:
             info.update(ok=False, why="forbidden construct: " + "; ".join(bad[:5]))
             return info
